@@ -37,6 +37,11 @@ func space(name string) *sp.API {
 }
 
 // custom colour type: forces the generic color.Color path and allows invalid premultiplied values
+// hidden hides the dynamic type of a colour
+type hidden struct{ c color.Color }
+
+func (h hidden) RGBA() (r, g, b, a uint32) { return h.c.RGBA() }
+
 type raw struct{ r, g, b, a uint32 }
 
 func (c raw) RGBA() (r, g, b, a uint32) { return c.r, c.g, c.b, c.a }
@@ -380,6 +385,57 @@ func TestC14(t *testing.T) {
 			}
 		}
 		wg.Wait()
+	}
+	// dynamic colour type must not matter: F(c) for every standard colour type is bit-identical to F(hidden{c}),
+	// where hidden only exposes RGBA() (so the generic path is taken)
+	{
+		x := uint32(ev.Seed()*2654435761 + 77)
+		next := func() uint32 { x = x*1664525 + 1013904223; return x >> 8 }
+		n := ev.Pick(3000, 200000)
+		for i := 0; i < n; i++ {
+			v := next()
+			a8 := uint8(next())
+			switch i % 5 {
+			case 0:
+				a8 = 255
+			case 1:
+				a8 = uint8(i % 3) // 0,1,2
+			}
+			a16 := uint16(next())
+			if i%7 == 0 {
+				a16 = 0xFF00 | uint16(a8)
+			}
+			r8, g8, b8 := uint8(v), uint8(v>>8), uint8(v>>16)
+			pm := func(c uint8) uint8 { return uint8(uint32(c) * uint32(a8) / 255) }
+			pm16 := func(c uint16) uint16 { return uint16(uint32(c) * uint32(a16) / 65535) }
+			cols := []color.Color{
+				color.NRGBA{r8, g8, b8, a8}, color.RGBA{pm(r8), pm(g8), pm(b8), a8},
+				color.NRGBA64{uint16(v), uint16(v >> 4), uint16(v >> 8), a16}, color.RGBA64{pm16(uint16(v)), pm16(uint16(v >> 4)), pm16(uint16(v >> 8)), a16},
+				color.Gray{r8}, color.Gray16{uint16(v)}, color.Alpha{a8}, color.Alpha16{a16},
+				color.CMYK{r8, g8, b8, a8}, color.YCbCr{r8, g8, b8}, color.NYCbCrA{color.YCbCr{r8, g8, b8}, a8},
+			}
+			for si := range sp.Spaces {
+				s := &sp.Spaces[si]
+				for _, c := range cols {
+					evals++
+					nt++
+					h := hidden{c}
+					c1, a1 := s.FromEncoded(c)
+					c2, a2 := s.FromEncoded(h)
+					l1, la1 := s.FromLinearColor(c)
+					l2, la2 := s.FromLinearColor(h)
+					if c1 != c2 || !bitsEq(a1, a2) || l1 != l2 || !bitsEq(la1, la2) || s.LineariseColor(c) != s.LineariseColor(h) || s.EncodeColor(c) != s.EncodeColor(h) {
+						key := s.Name + "/colour-type/" + fmt.Sprintf("%T", c)
+						if !rec.bad[key] {
+							rec.bad[key] = true
+							ev.Violation("alpha", key, fmt.Sprintf("%s: results for %T%v differ from the results for the same colour behind an opaque color.Color: ColorFromEncodedColor %v/%v vs %v/%v, LineariseColor %v vs %v, EncodeColor %v vs %v", s.Name, c, c, c1, a1, c2, a2, s.LineariseColor(c), s.LineariseColor(h), s.EncodeColor(c), s.EncodeColor(h)),
+								map[string]any{"space": s.Name, "type": fmt.Sprintf("%T", c), "value": fmt.Sprintf("%v", c)})
+						}
+					}
+				}
+			}
+		}
+		ev.Class("colour-type-differential", int64(n*11*4))
 	}
 	// image level: every 16-bit alpha in one 256x256 image, written into a REUSED (non-zero) destination buffer;
 	// alpha must come out bit-identical, transparent pixels as zero colour with alpha 0, channels <= alpha
